@@ -8,5 +8,6 @@ import RepidModel.Driver.Sched
 import RepidModel.Broker.InMemory
 import RepidModel.Broker.MemHistory
 import RepidModel.Pred.C01
+import RepidModel.Pred.Broker
 import RepidModel.Driver.State
 import RepidModel.Driver.Mem
